@@ -12,28 +12,26 @@ refused and the array is exactly as before -/
 theorem trimCapacity_spec (a : ArraySized) (m : Mem) (h : a.Inv) :
     ((a.trimCapacity m).1 = .ok ∧ (a.trimCapacity m).2.1.Inv ∧ (a.trimCapacity m).2.1.abs = a.abs ∧
       (a.trimCapacity m).2.1.capacity = max a.size 1 ∧ (a.trimCapacity m).2.1.size = a.size ∧
-      (a.trimCapacity m).2.1.dataLen = a.dataLen ∧ (a.trimCapacity m).2.1.grow = a.grow ∧
-      MemSame m (a.trimCapacity m).2.2) ∨
-    ((a.trimCapacity m).1 = .errAlloc ∧ (a.trimCapacity m).2.1 = a ∧ MemSame m (a.trimCapacity m).2.2 ∧
-      m.alloc.1 = false) := by
+      (a.trimCapacity m).2.1.dataLen = a.dataLen ∧ (a.trimCapacity m).2.1.cfg = a.cfg ∧
+      MemSame a.triple m (a.trimCapacity m).2.2) ∨
+    ((a.trimCapacity m).1 = .errAlloc ∧ (a.trimCapacity m).2.1 = a ∧ MemSame a.triple m (a.trimCapacity m).2.2 ∧
+      (m.allocT a.triple).1 = false) := by
   obtain ⟨j1, j2, j3, j4, j5⟩ := h
   unfold trimCapacity
   by_cases h1 : a.size = a.capacity
   · rw [if_pos h1]
     left
-    exact ⟨rfl, ⟨j1, j2, j3, j4, j5⟩, rfl, by dsimp only; omega, rfl, rfl, rfl, MemSame.refl m⟩
+    exact ⟨rfl, ⟨j1, j2, j3, j4, j5⟩, rfl, by dsimp only; omega, rfl, rfl, rfl, MemSame.refl _ m⟩
   · rw [if_neg h1]
     dsimp only
     by_cases h2 : (if a.size < 1 then 1 else a.size) = a.capacity
     · rw [if_pos h2]
       left
-      exact ⟨rfl, ⟨j1, j2, j3, j4, j5⟩, rfl, by dsimp only; split at h2 <;> omega, rfl, rfl, rfl, MemSame.refl m⟩
+      exact ⟨rfl, ⟨j1, j2, j3, j4, j5⟩, rfl, by dsimp only; split at h2 <;> omega, rfl, rfl, rfl, MemSame.refl _ m⟩
     · rw [if_neg h2]
-      cases hal : m.alloc.1
-      · right
-        have e := Mem.alloc_fst_false m hal
-        simp [MemSame, e]
+      rcases Bool.eq_false_or_eq_true (m.allocT a.triple).1 with hal | hal
       · left
+        rw [hal]
         simp only [Bool.not_true, Bool.false_eq_true, if_false]
         generalize hns : (if a.size < 1 then 1 else a.size) = ns at *
         have hns1 : ns = max a.size 1 ∧ a.size ≤ ns ∧ 0 < ns ∧ ns ≤ a.capacity := by
@@ -44,7 +42,7 @@ theorem trimCapacity_spec (a : ArraySized) (m : Mem) (h : a.Inv) :
             decide (a.size * a.dataLen ≤ a.buf.length)) = true := by
           simp [hsl, hsl2]
         rw [hchk]
-        refine ⟨trivial, ?_, ?_, hns1.1, trivial, trivial, trivial, ?_⟩
+        refine ⟨trivial, ?_, ?_, hns1.1, trivial, trivial, rfl, ?_⟩
         · unfold Inv; dsimp only
           exact ⟨j1, hns1.2.2.1, hns1.2.1, by simp, Nat.le_trans (slots_le hns1.2.2.2) j5⟩
         · rw [abs_eq_elems, abs_eq_elems]
@@ -55,7 +53,11 @@ theorem trimCapacity_spec (a : ArraySized) (m : Mem) (h : a.Inv) :
             (by simp only [Buf.length_mk]; exact slot_le (by omega))]
           rw [if_pos (by omega)]
           simp
-        · simpa using memSame_alloc_free m hal
+        · simpa using memSame_alloc_free m a.triple hal
+      · right
+        have e := allocT_false m a.triple hal
+        simp only [hal, Bool.not_false, if_true]
+        exact ⟨trivial, trivial, e.2, trivial⟩
 
 /-! ### reverse -/
 theorem reverseLoop_spec (dl n cap : Nat) (b0 : Buf Nat) (m : Mem) (hn : n ≤ cap) (hcap : cap * dl ≤ b0.length) :
@@ -102,7 +104,7 @@ theorem reverseLoop_spec (dl n cap : Nat) (b0 : Buf Nat) (m : Mem) (hn : n ≤ c
 
 theorem reverse_spec (a : ArraySized) (m : Mem) (h : a.Inv) :
     (a.reverse m).2 = m ∧ (a.reverse m).1.Inv ∧ (a.reverse m).1.abs = a.abs.reverse ∧
-    (a.reverse m).1.dataLen = a.dataLen ∧ (a.reverse m).1.grow = a.grow ∧
+    (a.reverse m).1.dataLen = a.dataLen ∧ (a.reverse m).1.cfg = a.cfg ∧
     (a.reverse m).1.capacity = a.capacity ∧ (a.reverse m).1.size = a.size := by
   obtain ⟨j1, j2, j3, j4, j5⟩ := h
   unfold reverse
@@ -276,7 +278,7 @@ order; the predicate is shown every element once, last to first -/
 theorem filterMut_spec (a : ArraySized) (p : List Nat → Bool) (m : Mem) (h : a.Inv) (h0 : 0 < a.size) :
     (a.filterMut p m).1 = .ok ∧ (a.filterMut p m).2.1 = a.abs.reverse ∧ (a.filterMut p m).2.2.2 = m ∧
     (a.filterMut p m).2.2.1.Inv ∧ (a.filterMut p m).2.2.1.abs = a.abs.filter p ∧
-    (a.filterMut p m).2.2.1.dataLen = a.dataLen ∧ (a.filterMut p m).2.2.1.grow = a.grow ∧
+    (a.filterMut p m).2.2.1.dataLen = a.dataLen ∧ (a.filterMut p m).2.2.1.cfg = a.cfg ∧
     (a.filterMut p m).2.2.1.capacity = a.capacity := by
   obtain ⟨j1, j2, j3, j4, j5⟩ := h
   have hs := filterMutLoop_spec p a.dataLen a.size a.capacity a.buf m j3 j4 a.size
@@ -381,7 +383,7 @@ theorem map_spec (a : ArraySized) (fn : List Nat → List Nat) (m : Mem) (h : a.
     (hf : ∀ c : List Nat, c.length = a.dataLen → (fn c).length = a.dataLen) :
     (a.map fn m).1 = a.abs ∧ (a.map fn m).2.2 = m ∧ (a.map fn m).2.1.Inv ∧
     (a.map fn m).2.1.abs = a.abs.map fn ∧
-    (a.map fn m).2.1.dataLen = a.dataLen ∧ (a.map fn m).2.1.grow = a.grow ∧
+    (a.map fn m).2.1.dataLen = a.dataLen ∧ (a.map fn m).2.1.cfg = a.cfg ∧
     (a.map fn m).2.1.capacity = a.capacity := by
   obtain ⟨j1, j2, j3, j4, j5⟩ := h
   have hs := mapLoop_spec fn a.dataLen a.size a.capacity a.buf m hf j3 j4 a.size 0 a.buf [] (by omega) rfl
@@ -472,7 +474,7 @@ its input (the part of the `qsort` contract needed for the array to stay well-fo
 theorem sort_spec (a : ArraySized) (sortFn : List (List Nat) → List (List Nat)) (h : a.Inv)
     (hperm : (sortFn a.abs).Perm a.abs) :
     (a.sort sortFn).Inv ∧ (a.sort sortFn).abs = sortFn a.abs ∧
-    (a.sort sortFn).dataLen = a.dataLen ∧ (a.sort sortFn).grow = a.grow ∧
+    (a.sort sortFn).dataLen = a.dataLen ∧ (a.sort sortFn).cfg = a.cfg ∧
     (a.sort sortFn).capacity = a.capacity ∧ (a.sort sortFn).size = a.size := by
   obtain ⟨j1, j2, j3, j4, j5⟩ := h
   have hlen : (sortFn a.abs).length = a.size := by rw [hperm.length_eq, abs_length]
